@@ -113,33 +113,42 @@ class TealBlock(ABC):
         if slotsInUse is None:
             slotsInUse = set()
 
-        currentSlotsInUse = set(slotsInUse)
-        errors = []
+        errors: List[TealCompileError] = []
 
-        for op in self.ops:
-            if op.getOp() == Op.store:
-                for slot in op.getSlots():
-                    currentSlotsInUse.add(slot)
+        # depth-first walk in successor order with an explicit stack (a recursive walk needs one
+        # Python frame per block along a path, which a long program exhausts); an entry is a
+        # block together with the slots stored on the path that leads to it
+        pending: List[Tuple[TealBlock, Set["ScratchSlot"], bool]] = [
+            (self, slotsInUse, True)
+        ]
+        while pending:
+            block, inUse, isRoot = pending.pop()
 
-            if op.getOp() == Op.load:
-                for slot in op.getSlots():
-                    if slot not in currentSlotsInUse:
-                        e = TealCompileError(
-                            "Scratch slot load occurs before store", op.expr
-                        )
-                        errors.append(e)
-
-        if not self.isTerminal():
-            sortedSlots = sorted(slot.id for slot in currentSlotsInUse)
-            for block in self.getOutgoing():
-                visitedKey = (id(block), *sortedSlots)
+            if not isRoot:
+                visitedKey = (id(block), *sorted(slot.id for slot in inUse))
                 if visitedKey in visited:
                     continue
                 visited.add(visitedKey)
 
-                for error in block.validateSlots(currentSlotsInUse, visited):
-                    if error not in errors:
-                        errors.append(error)
+            currentSlotsInUse = set(inUse)
+
+            for op in block.ops:
+                if op.getOp() == Op.store:
+                    for slot in op.getSlots():
+                        currentSlotsInUse.add(slot)
+
+                if op.getOp() == Op.load:
+                    for slot in op.getSlots():
+                        if slot not in currentSlotsInUse:
+                            e = TealCompileError(
+                                "Scratch slot load occurs before store", op.expr
+                            )
+                            if isRoot or e not in errors:
+                                errors.append(e)
+
+            if not block.isTerminal():
+                for nextBlock in reversed(block.getOutgoing()):
+                    pending.append((nextBlock, currentSlotsInUse, False))
 
         return errors
 
